@@ -167,24 +167,42 @@ def run(ck, ctx):
         if intr is None:
             return
         sq = [n for n in walk([enh]) if is_ext_call(n, "numpy.sqrt") and in_eas(n)]
-        cands = [n for n in walk([enh]) if n.op == "Scatter" and in_eas(n) and n is not intr]
         tops = []
         for q in sq:
-            Pq = PolyFacet(I, opaque_ids={n.id for n in cands})
-            m = Pq.monomial(Pq.of(q.args[1]))
-            if m is not None and len(m[1]) == 1:
-                aid = next(iter(m[1]))
-                info = Pq.atom_info[aid]
-                if info["kind"] == "node" and info["node"].op == "Scatter":
-                    tops.append(info["node"])
+            # sqrt(2 * L): L is the single non-constant factor under the root
+            arg = q.args[1]
+            facs = []
+            stack = [arg]
+            while stack:
+                x = stack.pop()
+                if x.op == "BinOp" and x.attr == "Mult":
+                    stack.extend(x.args)
+                elif x.op != "Const":
+                    facs.append(x)
+            if len(facs) == 1:
+                Pq = PolyFacet(I, opaque_ids={facs[0].id})
+                if Pq.equal(Pq.of(arg), Pq.ref("2*x", {"x": Pq.of(facs[0])})):
+                    tops.append(facs[0])
         if len(tops) != 1:
-            raise AnalysisError(f"log-enhancement array not identified ({len(tops)} candidates)")
+            raise AnalysisError(f"log-enhancement term (argument of the square root) not identified ({len(tops)} candidates)")
         le = tops[0]
         P = PolyFacet(I, opaque_ids={le.id, intr.id, numPEs.id})
         ck.ob("R08.4", "enhanced angle == intrinsic angle x sqrt(2 x log-enhancement)",
               P.equal(P.of(enh), P.ref("t*sqrt(2*x)", {"t": P.of(intr), "x": P.of(le)})), enh, func,
               P.show(P.of(enh))[:200])
         base, chain = scatter_chain(le)
+        if not chain and is_ext_call(le, "numpy.where") and len(le.args) == 4:
+            # where(c, a, b) is the same two-branch definition as two masked stores
+            c_, a_, b_ = le.args[1:4]
+            chain = [I.mk("Scatter", (le, c_, a_), None, le.site), I.mk("Scatter", (le, I.mk("UnaryOp", (c_,), "Invert"), b_),
+                                                                      None, le.site)]
+        two_branch = len(chain) == 2
+        ck.ob("R08.4", "the log-enhancement is a two-branch function of PE/threshold (enhanced above the switch, "
+              "constant below)", two_branch, le, func, "" if two_branch else
+              f"no switch found: the multiplier is sqrt(2 x {g.show(le, 3)}) for every event, so events with "
+              "PE/threshold <= 2 are widened as well")
+        if not two_branch:
+            return
         pr = Pred(I)
         fs = [pr.formula(sc.args[1]) for sc in chain]
         t = pr.tautology(("or",) + tuple(fs)) if len(fs) > 1 else (False, None)
